@@ -61,7 +61,10 @@ class Ctx:
         self.repo = REPO
         self.t0 = time.time()
         self.deadline_s = float(os.environ.get("VERIF_DEADLINE_S", "1500" if tier == "thorough" else "600"))
-        self.build = os.path.join(VERIF, "build", pid)
+        # runs against a scratch copy (mutation audit) get their own build / replay / evidence area so that they can
+        # run next to a check of /repo itself
+        self.alt = None if os.path.realpath(REPO) == "/repo" else os.path.basename(os.path.normpath(REPO))
+        self.build = os.path.join(VERIF, "build", pid) if not self.alt else os.path.join(VERIF, "build", "alt_" + self.alt, pid)
         shutil.rmtree(self.build, ignore_errors=True)
         os.makedirs(self.build, exist_ok=True)
         self.violations = []
@@ -155,7 +158,7 @@ class Ctx:
         for v in self.violations:
             k = match_known(known, self.pid, v.key)
             (knownhits if k else new).append((v, k))
-        rdir = os.path.join(VERIF, "replays", self.pid)
+        rdir = os.path.join(VERIF, "replays", self.pid) if not self.alt else os.path.join(VERIF, "build", "alt_" + self.alt, "replays", self.pid)
         shutil.rmtree(rdir, ignore_errors=True)
         wall = round(self.elapsed(), 3)
         cov = dict(self.cov)
@@ -179,7 +182,7 @@ class Ctx:
             "known_findings_hit": len(knownhits),
         }
         # runs against a scratch copy (mutation audit) must not overwrite the evidence of /repo
-        evdir = os.path.join(VERIF, "evidence") if os.path.realpath(self.repo) == "/repo" else os.path.join(VERIF, "build", "evidence_alt")
+        evdir = os.path.join(VERIF, "evidence") if not self.alt else os.path.join(VERIF, "build", "alt_" + self.alt, "evidence")
         os.makedirs(evdir, exist_ok=True)
         with open(os.path.join(evdir, self.pid + ".json"), "w") as fh:
             json.dump(ev, fh, indent=1, sort_keys=True, default=str)
